@@ -538,6 +538,9 @@ func (server *Server) listen(sock socket.Socket, address string, New NewServerCo
 					if svrctx.pipeline != nil {
 						svrctx.pipeline.Close()
 					}
+					for _, ctx := range svrctx.streams {
+						ctx.stream.Close()
+					}
 				}
 			}
 			return err
